@@ -148,10 +148,13 @@ def gen_stack(rng):
     # empty values are assignments too: "" at a higher layer blanks what a lower layer set
     # key spellings that differ only in case are DIFFERENT keys in the keyring and -o layers
     # (configparser lower-cases the keys of files only)
-    overrides = [[rng.choice(SECTIONS[:4]), rng.choice(KEYS[:5] + ["Mixer", "A", "Output"]),
+    # override / keyring sections include configparser's reserved default-section name and case variants:
+    # overrides never go through the parser, so these are ordinary (unknown) sections
+    osecs = SECTIONS[:4] * 4 + ["DEFAULT", "default", "Core", "AUDIO"]
+    overrides = [[rng.choice(osecs), rng.choice(KEYS[:5] + ["Mixer", "A", "Output"]),
                   rng.choice(VALUES[:12] + ["", "", "", "alsasink device=hw:1", "cGFzcw==", "a/b=c/d", "k=v=w"])]
                  for _ in range(rng.choice([0, 0, 1, 2, 3]))]
-    keyring = [[rng.choice(SECTIONS[:3]), rng.choice(KEYS[:4] + ["Mixer", "A", "B"]), rng.choice(["secret", "pä\udcffss", "", "x #1"])]
+    keyring = [[rng.choice(SECTIONS[:3] * 4 + ["DEFAULT", "Core"]), rng.choice(KEYS[:4] + ["Mixer", "A", "B"]), rng.choice(["secret", "pä\udcffss", "", "x #1"])]
                for _ in range(rng.choice([0, 0, 0, 1, 2]))]
     # the command line gives the overrides as texts "section/key=value": they go through the real parser
     pads = ["", "", " ", "  ", "\t"]
